@@ -34,10 +34,13 @@ Family == CASE Mode = "ctl1" -> CTL1
             [] Mode = "ctl2" -> CTL2 \ CTL1
             [] Mode = "path1" -> Path1
             [] Mode = "path2" -> Path2 \ Path1
+            [] Mode = "fairq" -> M0 \cup CTLq(M0) \cup {<<q, g>> : q \in {"A", "E"}, g \in {<<"X", P>>, <<"F", <<"G", P>>>>, <<"G", <<"F", Q>>>>, <<"and", <<"F", P>>, <<"G", Q>>>>}}
             [] Mode = "fair" -> CTL1 \cup {<<q, g>> : q \in {"A", "E"}, g \in Un(M0) \cup Bi(M0)}
 IsCtl == Mode \in {"ctl1", "ctl2"}
 IsPath == Mode \in {"path1", "path2"}
 \* two-level fan-out (first K, then f) so that TLC's workers share the evaluation
+RECURSIVE AndAll(_)
+AndAll(sq) == IF Len(sq) = 1 THEN sq[1] ELSE <<"and", sq[1], AndAll(Tail(sq))>>
 Init == c = <<>>
 Next == \/ c = <<>> /\ c' \in {<<k>> : k \in Ks}
         \/ Len(c) = 1 /\ c' \in {<<c[1], g>> : g \in Family}
@@ -67,7 +70,7 @@ Extend(Kr) == [n |-> Kr.n + 1, R |-> Kr.R \cup {<<Kr.n, Kr.n>>, <<Kr.n, 0>>},
                L |-> [s \in 0..Kr.n |-> IF s = Kr.n THEN {"p"} ELSE Kr.L[s]]]
 Submodel == (Full /\ IsCtl) => SatStar(Extend(K), f) \cap S = SatStar(K, f)
 FairSets == {{}, {{}}, {S}, {{0}}} \cup (IF K.n > 1 THEN {{{1}}, {{0}, {1}}, {{0, 1}}} ELSE {})
-FairAgree == (Full /\ Mode = "fair") =>
+FairAgree == (Full /\ Mode \in {"fair", "fairq"}) =>
    /\ \A Fc \in FairSets : FairStates(K, Fc) = FairStatesSCC(K, Fc)
    /\ SatFair(K, f, {}) = SatStar(K, f)
    /\ SatFair(K, f, {S}) = SatStar(K, f)
@@ -76,5 +79,5 @@ FairAgree == (Full /\ Mode = "fair") =>
         LET FS == FairStates(K, Fc)
             gE == ElimF(K, f[2], Fc, FS)
             gf == [i \in 1..Cardinality(Fc) |-> <<"G", <<"F", <<"set", SetToSeq(Fc)[i]>>>>>>]
-        IN ELTL(K, gE, Fc) = ELTL(K, <<"and", gE>> \o gf, {})
+        IN ELTL(K, gE, Fc) = ELTL(K, AndAll(<<gE>> \o gf), {})
 =======================================================================
